@@ -71,14 +71,15 @@ Lemma h_build_self_x_false c : h_build_self_x false c = h_build_self c.
 Proof. reflexivity. Qed.
 
 (** ---- [Command::build] ---- *)
-(** the height of a tree (a command without subcommands: 0) *)
-Fixpoint hc_height (c : hcmd) : nat :=
-  (fix go (l : list hcmd) : nat :=
-     match l with [] => O | s :: t => Nat.max (S (hc_height s)) (go t) end) (hc_subs c).
+(** the recursions below descend into the subcommands of a BUILT level (the generated [help] subtree included), so
+    they are not structural in the user's tree: they take fuel, and every caller supplies the constant [tree_fuel].
+    Domain: command trees of height below [tree_fuel - 2] (the built tree is one level higher than the user's: the
+    [help] subtree of a level is as high as the level, plus [help help]).  A constant rather than a function of the
+    tree, so that two trees that differ in one subcommand are built with the same fuel. *)
+Definition tree_fuel_pred : nat := 63.
+Definition tree_fuel : nat := S tree_fuel_pred.
 
-(** [_build_recursive(true)].  The recursion descends into the subcommands of the BUILT level (the generated
-    [help] subtree included), hence the fuel; [h_build] supplies [hc_height c + 3], which is more than the
-    height of the built tree + 1 (the [help] subtree of a level is as high as the level, plus [help help]). *)
+(** [_build_recursive(true)] *)
 Fixpoint h_build_recursive (fuel : nat) (c : hcmd) : hcmd :=
   match fuel with
   | O => c
@@ -115,8 +116,7 @@ Fixpoint h_build_bin_names (fuel : nat) (c : hcmd) : option hcmd :=
   end.
 
 (** [Command::build] *)
-Definition h_build (c : hcmd) : option hcmd :=
-  let n := (hc_height c + 3)%nat in h_build_bin_names n (h_build_recursive n c).
+Definition h_build (c : hcmd) : option hcmd := h_build_bin_names tree_fuel (h_build_recursive tree_fuel c).
 
 (** ---- usage.rs: the flatten branch of [write_help_usage] ---- *)
 Definition flat_cond (c : hcmd) : bool := has_visible_subcommands c && hc_flatten c.
@@ -126,7 +126,7 @@ Definition visible_subs (c : hcmd) : list hcmd := filter (fun s => negb (hc_hide
 
 (** [write_usage_no_title(&[])] = [write_help_usage] (no usage override in the domain): the usage LINES, each a
     list of pieces as [usage_pieces] returns them.  Between two lines the code writes [trim_end] + [USAGE_SEP].
-    [None] = panic, or the fuel ran out (depth of nested flattening; [flat_usage] supplies the height + 2). *)
+    [None] = panic, or the fuel ran out (depth of nested flattening; [flat_usage] supplies [tree_fuel]). *)
 Fixpoint usage_lines (fuel : nat) (c : hcmd) : option (list (list bytes)) :=
   if flat_cond c then
     match fuel with
@@ -139,7 +139,7 @@ Fixpoint usage_lines (fuel : nat) (c : hcmd) : option (list (list bytes)) :=
     end
   else dO p <- usage_pieces c; Some [p].
 
-Definition flat_usage (c : hcmd) : option (list (list bytes)) := usage_lines (hc_height c + 2)%nat c.
+Definition flat_usage (c : hcmd) : option (list (list bytes)) := usage_lines tree_fuel c.
 
 (** the text: every piece is followed by one space, [USAGE_SEP] is written after a [trim_end], the whole is
     [trim_end]ed ([create_usage_no_title]) *)
